@@ -24,7 +24,8 @@ HARMLESS = {"wav": [b"JUNK", b"iXML", b"DISP", b"inst", b"TAGx", b"WAVE"], "rf64
 def stored_id(i):
     """the marker an id is stored under and found again by: the C string, cut to four characters, padded with spaces"""
     return i.split(b"\0")[0][:4].ljust(4, b" ")
-SIZES = [0, 1, 2, 3, 4, 5, 255, 256, 4095, 4096, 51199, 51200]
+# 51200 was the largest single chunk the header cache took before the repair of psf_bump_header_allocation; 65536 is the largest the statement names
+SIZES = [0, 1, 2, 3, 4, 5, 255, 256, 4095, 4096, 51199, 51200, 51201, 51204, 65535, 65536]
 COUNT_SPREAD = [0, 1, 2, 19, 20, 21, 30, 31, 32, 33, 47, 48, 49, 72, 73, 74, 110, 111, 112, 167, 168, 169, 199, 200]
 
 
@@ -98,17 +99,20 @@ def gen_scripts(ctx):
             S.append(("count-%s-%03d" % (cont, n), "count", cont, C.mk_script(cont, ch, reads=reads_for(rng, ch, heavy=(n % 3 == 0), cont=cont)), {"chunks": ch}))
     # b. payload sizes, single chunk and in company
     for cont in C.CONTAINERS:
-        for sz in SIZES + ([rng.randrange(6, 51200) for _ in range(4 if not thorough else 40)]):
+        for sz in SIZES + ([rng.randrange(6, 65536) for _ in range(4 if not thorough else 40)]):
             ids = legal_pool(rng, cont, 3)
             ch = [(ids[0], payload(rng, 2)), (ids[1], payload(rng, sz))]
             if sz < 40000:
                 ch.append((ids[2], payload(rng, 3)))
             S.append(("size-%s-%d" % (cont, sz), "size", cont, C.mk_script(cont, ch, reads=["chunkall h1 null", "chunkall h1 %s" % ids[1].hex(), "chunkall h1 null 5"]), {"chunks": ch}))
-        for sz in (51201, 51204, 65535, 65536):
-            ch = [(b"big1", payload(rng, sz))]
-            S.append(("size-%s-%d" % (cont, sz), "size-beyond-cache", cont, C.mk_script(cont, ch, reads=["chunkall h1 null"]), {"chunks": ch}))
-        ch = [(b"tot%d" % k, payload(rng, 30000)) for k in range(4)]
-        S.append(("size-%s-4x30000" % cont, "size-beyond-cache", cont, C.mk_script(cont, ch, reads=["chunkall h1 null"]), {"chunks": ch}))
+        # several chunks that together stay below the 100 KiB of the header buffer: all kept
+        for lens in ((30000, 30000, 30000), (65536, 20000, 16000), (51204, 50000), (102400 - 400,), (102400 - 200,)):
+            ch = [(b"tot%d" % k, payload(rng, n)) for k, n in enumerate(lens)]
+            S.append(("size-%s-%s" % (cont, "+".join(map(str, lens))), "size", cont, C.mk_script(cont, ch, reads=["chunkall h1 null", "chunkall h1 %s 7" % b"tot0".hex()]), {"chunks": ch}))
+        # beyond it (the remaining part of C13-header-cache): the model says which payloads are dropped
+        for lens in ((65536, 65536), (30000, 30000, 30000, 30000), (102400,), (110000,), (51204, 51204)):
+            ch = [(b"big%d" % k, payload(rng, n)) for k, n in enumerate(lens)]
+            S.append(("size-%s-%s" % (cont, "+".join(map(str, lens))), "size-beyond-cache", cont, C.mk_script(cont, ch, reads=["chunkall h1 null"]), {"chunks": ch}))
     # c. ids: ids the parser skips by name are ordinary custom ids; reserved / short / unprintable ids are classes
     for cont in C.CONTAINERS:
         ch = [(i, payload(rng, 1 + k)) for k, i in enumerate(HARMLESS[cont])]
@@ -312,7 +316,7 @@ def check_known(ctx):
         reopen = [ls[0] for op, ls in pairs if op[0] == "open" and op[3] == "r" and ls]
         rd = [ls[0] for op, ls in pairs if op[0] == "r" and ls]
         sig = False
-        if e["id"] in ("C13-header-cache", "C13-short-id", "C13-unprintable-id"):
+        if e["id"] in ("C13-header-cache", "C13-header-cache-51200", "C13-short-id", "C13-unprintable-id"):
             sig = rc == 0 and allzero and reopen and reopen[0].startswith("open=NULL")
         elif e["id"] == "C13-reserved-id":
             sig = rc == 0 and allzero and ((reopen and reopen[0].startswith("open=NULL")) or (rd and not rd[0].startswith("ret=8 err=0 data=" + C.audio_hex(8))))
